@@ -141,11 +141,16 @@ func (vc *VC) run() {
 		v := vc.freshTyped(entry, "fv_"+fv.Name(), fv.Type(), "true")
 		vc.vals[fv] = v
 		vc.nonnil[fv] = true
+		if _, ok := fv.Type().Underlying().(*types.Pointer); ok && v.t != "" {
+			// a captured variable is a cell allocated by the enclosing function: never nil
+			vc.addAssume("true", app("<", "0", v.t))
+		}
 	}
 	if vc.fi != nil && fn.Signature.Recv() != nil && len(fn.Params) > 0 {
 		// receiver alias "self" when unnamed
 		vc.params[vc.fi.params[0]] = vc.vals[fn.Params[0]]
 	}
+	vc.initPanicMode(entry)
 	vc.entry = entry.clone()
 	// preconditions
 	if vc.fi != nil {
@@ -190,14 +195,18 @@ func (vc *VC) run() {
 	for _, b := range order {
 		vc.block(b, entry)
 	}
+	vc.finishPanics()
 }
 
 func (vc *VC) block(b *ssa.BasicBlock, entry *State) {
 	var st *State
 	var reach Term
-	if b.Index == 0 {
+	if (vc.startBlock == nil && b.Index == 0) || b == vc.startBlock {
 		st = entry.clone()
 		reach = "true"
+		if vc.baseReach != "" {
+			reach = vc.baseReach
+		}
 	} else {
 		type inc struct {
 			pred *ssa.BasicBlock
@@ -248,6 +257,15 @@ func (vc *VC) block(b *ssa.BasicBlock, entry *State) {
 				t = vc.define(k, sort, t)
 			}
 			st.heaps[k] = t
+		}
+		seenDefer := map[*ssa.Defer]bool{}
+		for _, in := range ins {
+			for _, d := range in.st.defers {
+				if !seenDefer[d.in] {
+					seenDefer[d.in] = true
+					st.defers = append(st.defers, d)
+				}
+			}
 		}
 		li := vc.loops[b]
 		// phis
@@ -308,6 +326,10 @@ func (vc *VC) block(b *ssa.BasicBlock, entry *State) {
 			vc.curPos = p
 		}
 		vc.instr(in, st, reach, b)
+		if vc.reachOverride != "" {
+			reach = vc.reachOverride
+			vc.reachOverride = ""
+		}
 	}
 	vc.out[b] = st
 }
@@ -397,6 +419,30 @@ func (vc *VC) loopHeader(li *LoopInfo, reach Term, entrySt *State, entryPhi map[
 			vc.quantCtx = true
 			vc.addAssume(reach, "(forall (("+r+" Int)) (! (=> (and (<= 0 "+r+") (< "+r+" "+a0+")) (= (select "+newH+" "+r+") (select "+oldH+" "+r+"))) :pattern ((select "+newH+" "+r+"))))")
 			vc.assume("inferred loop frame (checked syntactically): every write into " + name + " inside the loop goes through memory allocated by this activation, so objects that existed at function entry are unchanged")
+		}
+	}
+	if !mod["*"] {
+		// single-target loops: every write into a Mem_ heap goes through one loop-invariant slice value
+		freshFramed := vc.loopFrameFacts(li)
+		for name, base := range vc.loopSingleBase(li) {
+			if freshFramed[name] {
+				continue // the stronger provenance-based frame already covers this heap
+			}
+			sort, ok := vc.heapSort[name]
+			if !ok || !mod[name] || !strings.HasPrefix(name, "Mem_") {
+				continue
+			}
+			oldH, newH := vc.heapGet(entrySt, name, sort), vc.heapGet(st, name, sort)
+			if oldH == newH {
+				continue
+			}
+			bv := vc.val(base)
+			r := vc.freshName("r")
+			vc.quantCtx = true
+			vc.addAssume(reach, "(forall (("+r+" Int)) (! (=> (not (= "+r+" "+slRef(bv.t)+")) (= (select "+newH+" "+r+") (select "+oldH+" "+r+"))) :pattern ((select "+newH+" "+r+"))))")
+			j := vc.freshName("j")
+			vc.addAssume(reach, "(forall (("+j+" Int)) (! (=> (or (< "+j+" "+slOff(bv.t)+") (>= "+j+" (+ "+slOff(bv.t)+" "+slLen(bv.t)+"))) (= (select (select "+newH+" "+slRef(bv.t)+") "+j+") (select (select "+oldH+" "+slRef(bv.t)+") "+j+"))) :pattern ((select (select "+newH+" "+slRef(bv.t)+") "+j+"))))")
+			vc.assume("inferred loop frame (checked syntactically): every write into " + name + " inside the loop is an element store through one loop-invariant slice, so all other arrays and the elements outside that slice are unchanged")
 		}
 	}
 	vc.flushWF(st)
@@ -1079,7 +1125,21 @@ func (vc *VC) bitUF(op string, bits int, a, b Term, rt types.Type, boundedByA bo
 	if boundedByA {
 		facts = and(facts, app("<=", r, a))
 	}
-	vc.addAssume("true", facts)
+	if vc.noDefine {
+		// under a binder the operands are bound variables: state the range fact once, for all operands
+		if !vc.declSet[f+"!range"] {
+			vc.declSet[f+"!range"] = true
+			fa := app(f, "a", "b")
+			g := inRange(rt, fa)
+			if boundedByA {
+				g = and(g, implies(app("<=", "0", "a"), app("<=", fa, "a")))
+			}
+			vc.quantCtx = true
+			vc.addAssume("true", "(forall ((a Int) (b Int)) (! "+g+" :pattern ("+fa+")))")
+		}
+	} else {
+		vc.addAssume("true", facts)
+	}
 	vc.assume("bit operation treated as uninterpreted (range facts only, exact for all-zero / all-one operands): " + op + " in " + vc.fn.String())
 	// exact cases: one operand 0 or all ones (-1 signed / max unsigned)
 	_, signed, _ := intInfo(rt)
@@ -1530,6 +1590,10 @@ func (vc *VC) ret(x *ssa.Return, st *State, reach Term) {
 	for _, r := range x.Results {
 		rv = append(rv, vc.val(r))
 	}
+	if vc.inline != nil {
+		vc.inline.rets = append(vc.inline.rets, inlineRet{cond: reach, vals: rv, st: st.clone()})
+		return
+	}
 	if vc.fi == nil {
 		return
 	}
@@ -1540,6 +1604,9 @@ func (vc *VC) ret(x *ssa.Return, st *State, reach Term) {
 		}
 	}
 	for _, cl := range vc.fi.fc.Ensures {
+		if cl.NameOnly {
+			continue
+		}
 		vc.quantCtx = false
 		t := vc.clauseTerm(vc.fi, cl, vc.params, res, st, vc.entry)
 		vc.lastEv = nil
@@ -1566,6 +1633,10 @@ func (vc *VC) ret(x *ssa.Return, st *State, reach Term) {
 }
 
 func (vc *VC) panicInstr(x *ssa.Panic, st *State, reach Term) {
+	if vc.panicMode {
+		vc.panicNow(x, st, reach)
+		return
+	}
 	if vc.fi != nil && vc.fi.fc.MayPanic {
 		return
 	}
